@@ -1,4 +1,5 @@
 PROP = {
+    "regen_files": ["GenGuards.v"],
     "num": 7,
     "runs": [{"tag": "c07", "bin": "c07"}],
     "mismatch_is_failing": True,
